@@ -88,6 +88,16 @@ def _check_result(res, spec, s, d, mode, what):
     return snap
 
 
+def _unrepresentable_split(spec, s, d, mode):
+    """A right-hand piece narrower than the floating-point resolution at its shifted position cannot be
+    represented by any implementation (s+d and end+d round to the same double): outside the domain."""
+    import math
+
+    if spec["type"] != "interval" or mode != "split":
+        return False
+    return any(e[0] < s < e[1] and (e[1] - s) <= 4 * math.ulp(e[1] + d) for e in spec["entries"])
+
+
 def run_tier_case(case):
     p = P()
     spec, s, d, mode = case["tier"], case["s"], case["d"], case["mode"]
@@ -100,14 +110,8 @@ def run_tier_case(case):
     is_int = spec["type"] == "interval"
     what = f"insertSpace({s!r},{d!r},{mode})"
     m = _model(spec, s, d, mode)
-    if is_int and mode == "split":
-        import math
-
-        # a right-hand piece narrower than the floating-point resolution at its shifted position cannot be
-        # represented by any implementation (s+d and end+d round to the same double): outside the domain
-        for e in spec["entries"]:
-            if e[0] < s < e[1] and (e[1] - s) <= 4 * math.ulp(e[1] + d):
-                return {"classes": ["skipped_unrepresentable_split_piece"], "nontrivial": False}
+    if _unrepresentable_split(spec, s, d, mode):
+        return {"classes": ["skipped_unrepresentable_split_piece"], "nontrivial": False}
     try:
         with quiet():
             res = tier.insertSpace(s, d, mode)
@@ -150,6 +154,8 @@ def run_tg_case(case):
     before = snap_tg(tg)
     rejected = any(_model(t, s, d, mode)[0] == "rejected" for t in spec["tiers"])
     what = f"Textgrid.insertSpace({s!r},{d!r},{mode})"
+    if any(_unrepresentable_split(t, s, d, mode) for t in spec["tiers"]):
+        return {"classes": ["skipped_unrepresentable_split_piece"], "nontrivial": False}
     try:
         with quiet():
             res = tg.insertSpace(s, d, mode)
